@@ -13,7 +13,7 @@ import re
 from harness.common import dec_res, enc_val, ensure_impl_on_path, known_predicate, run_impl, same
 
 GEN_MODULES = ['excelutil', 'lookup']
-EXTRA_TARGETS = ('Proofs/C16.vo',)
+EXTRA_TARGETS = ('Proofs/C16.vo', 'Refuted/C16_blank_cell.vo', 'Refuted/C16_wildcard_tilde.vo')
 ASSUMPTIONS = [
     "cells and lookup values are scalars (numbers from the float-exact domain, text, logicals, blank, "
     "error codes); arrays are tuples of row tuples",
